@@ -703,7 +703,15 @@ where
             self.inner.eval().map_err(|e| MErr::Inner(e.to_string()))
         };
         if !paused {
-            self.push(Call::Eval, self.cur_bits(), r.is_ok(), false);
+            // "ok" of an evaluation event = the model handed back a USABLE basis matrix: no error and
+            // every value finite.  A matrix with a non-finite value is an evaluation the problem cannot
+            // use (it exposes nothing for it, like after an error); the specification's TrialEval(ok)
+            // branches on exactly that.
+            let usable = match &r {
+                Ok(m) => m.iter().all(|v| v.to64().is_finite()),
+                Err(_) => false,
+            };
+            self.push(Call::Eval, self.cur_bits(), usable, false);
         }
         r
     }
